@@ -83,11 +83,10 @@ def sortNat (l : List Nat) : List Nat := l.foldl (fun acc x => insertSorted x ac
 
 def checkTemplate (g : IR) : String :=
   if !g.ran.contains "used_template_params" then "used_template_params=notrun"
-  else if !g.opts.allowlistRecursively then "used_template_params=skipped-nonrecursive"
   else
   let ts := templateSetup g
-  if ts.tps.length * ts.nodes.length > 400000 then "used_template_params=skipped-large" else
-  let model := templateSolve g
+  if g.opts.allowlistRecursively && ts.tps.length * ts.nodes.length > 400000 then "used_template_params=skipped-large" else
+  let model := if g.opts.allowlistRecursively then templateSolve g else templateNonRecursive g
   let dump := dumpedTemplate g
   let look := fun (l : List (Nat × List Nat)) (n : Nat) => sortNat ((l.find? (·.1 == n)).map (·.2) |>.getD [])
   let keys := (model.map (·.1) ++ dump.map (·.1)).eraseDups
